@@ -162,6 +162,8 @@ STMT_ZOO = [
     "for i in range(2):\n    t_ = x0\n    x0 = p0\n    p0 = t_", "for i in range(3):\n    x0 = [x0]", "for i in range(2):\n    l = [l]",
     "for i in range(2):\n    t_ = x0\n    x0 = 'a'\n    t_ = x0", "for i in range(2):\n    x0, p0 = p0, x0",
     "for i in range(2):\n    for j in range(2):\n        x0 = [x0]", "for i in range(4):\n    s_ = 1\n    s_ = 'a'\n    s_ = [s_]",
+    "for i in range(3):\n    g_ = h_\n    h_ = [1]\n    h_ = g_[0]", "for i in range(3):\n    g_ = h_\n    h_ = x0\n    h_ = [g_]",
+    "for i in range(2):\n    u_ = v_\n    v_ = w_\n    w_ = [u_]\n    w_ = 1", "for i in range(3):\n    for j in range(2):\n        g_ = h_\n        h_ = [[1]]\n        h_ = g_[0]",
     "acc_ = Integer(0)\nfor i in range(3):\n    acc_ = acc_ + x0", "a_ = Integer(0)\nb_ = Integer(0)\nfor i in range(2):\n    b_ = a_\n    a_ = x0",
 ]
 # statements that are type errors but only just: a checker that is slightly too generous accepts them, and then the value
